@@ -33,7 +33,87 @@ type Recorder struct {
 	// CtxExpect: the context values THIS execution passed (nil: none); every callback compares ctx.Get over
 	// CtxUniverse with it
 	CtxExpect map[string]any
-	mu        sync.Mutex
+	// Ptrs: the pointers callbacks were handed (C12: "a non-nil pointer to the destination"); compared after
+	// the execution with the addresses of the destination's parts
+	Ptrs []PtrObs
+	// Root: the destination of the execution in progress
+	Root reflect.Value
+	mu   sync.Mutex
+}
+
+// PtrObs: one pointer argument of a callback
+type PtrObs struct {
+	Kind string
+	ID   int
+	Path string
+	Addr uintptr
+	Type reflect.Type
+	// Then: the pointer was the address of a part of the destination at the moment of the call (a later
+	// callback may remove that part, e.g. shorten a slice)
+	Then bool
+}
+
+func (r *Recorder) notePtr(kind string, id int, ctx z.Ctx, val any) {
+	if val == nil {
+		return
+	}
+	rv := reflect.ValueOf(val)
+	if rv.Kind() != reflect.Pointer || rv.IsNil() || rv.Type().Elem().Size() == 0 {
+		return
+	}
+	then := false
+	if r.Root.IsValid() {
+		set := map[addrKey]bool{}
+		destAddrs(r.Root, set)
+		then = set[addrKey{rv.Pointer(), rv.Type().Elem()}]
+	}
+	r.mu.Lock()
+	r.Ptrs = append(r.Ptrs, PtrObs{kind, id, ctxPath(ctx), rv.Pointer(), rv.Type().Elem(), then})
+	r.mu.Unlock()
+}
+
+type addrKey struct {
+	a uintptr
+	t reflect.Type
+}
+
+// destAddrs: the address and type of every addressable part of a destination (fields, elements, pointees)
+func destAddrs(rv reflect.Value, out map[addrKey]bool) {
+	if rv.CanAddr() {
+		out[addrKey{rv.Addr().Pointer(), rv.Type()}] = true
+	}
+	switch rv.Kind() {
+	case reflect.Pointer:
+		if !rv.IsNil() {
+			destAddrs(rv.Elem(), out)
+		}
+	case reflect.Struct:
+		if rv.Type() != timeType {
+			for i := 0; i < rv.NumField(); i++ {
+				destAddrs(rv.Field(i), out)
+			}
+		}
+	case reflect.Slice:
+		for i := 0; i < rv.Len(); i++ {
+			destAddrs(rv.Index(i), out)
+		}
+	}
+}
+
+// StrayPtr: the first callback pointer that was the address of a part of the destination neither when the
+// callback ran nor when the execution ended ("" if none)
+func (r *Recorder) StrayPtr(dest reflect.Value) string {
+	if len(r.Ptrs) == 0 {
+		return ""
+	}
+	set := map[addrKey]bool{}
+	destAddrs(dest, set)
+	for _, o := range r.Ptrs {
+		if !o.Then && !set[addrKey{o.Addr, o.Type}] {
+			return fmt.Sprintf("%s callback %d at %q was handed a *%s that is not the address of any part of the destination", o.Kind, o.ID, o.Path, o.Type)
+		}
+	}
+	return ""
 }
 
 func (r *Recorder) addEvent(e Event) {
@@ -185,6 +265,7 @@ func builtTest(n *Node, t TestSpec, rec *Recorder) z.Test {
 func fnTest(n *Node, t TestSpec, rec *Recorder) z.BoolTFunc {
 	return func(val any, ctx z.Ctx) bool {
 		noteCtx(ctx, rec)
+		rec.notePtr("test", t.ID, ctx, val)
 		d := argD(n, val)
 		rec.addEvent(Event{"test", t.ID, ctxPath(ctx), d})
 		if d.K == "nilarg" {
@@ -234,6 +315,7 @@ func bumpDeepRV(rv reflect.Value) {
 func postFn(n *Node, ps PostSpec, rec *Recorder) z.PostTransform {
 	return func(ptr any, ctx z.Ctx) error {
 		noteCtx(ctx, rec)
+		rec.notePtr("post", ps.ID, ctx, ptr)
 		d := argD(n, ptr)
 		rec.addEvent(Event{"post", ps.ID, ctxPath(ctx), d})
 		var rv reflect.Value
@@ -317,6 +399,26 @@ func NamedCoercer(name string) func(any) (any, error) {
 				return false, nil
 			}
 			return nil, fmt.Errorf("yn: unsupported")
+		}
+	case "len64", "len32", "const25", "const25f", "epoch1":
+		// one per remaining constructor: the custom coercer replaces the constructor's own adapter and hands
+		// over the destination type itself
+		return func(v any) (any, error) {
+			s, ok := v.(string)
+			if !ok {
+				return nil, fmt.Errorf("%s: unsupported", name)
+			}
+			switch name {
+			case "len64":
+				return int64(len(s)), nil
+			case "len32":
+				return int32(len(s)), nil
+			case "const25":
+				return 2.5, nil
+			case "const25f":
+				return float32(2.5), nil
+			}
+			return time.Unix(86400, 0).UTC(), nil
 		}
 	case "csv":
 		return func(v any) (any, error) {
@@ -405,9 +507,9 @@ func buildNum[T int | int32 | int64 | float64 | float32](s *z.NumberSchema[T], n
 // floatCtor: z.Float is the deprecated spelling of z.Float64
 func floatCtor(n *Node) *z.NumberSchema[float64] {
 	if len(n.Tests)%2 == 1 {
-		return z.Float()
+		return z.Float(schemaOpts(n)...)
 	}
-	return z.Float64()
+	return z.Float64(schemaOpts(n)...)
 }
 
 // Build constructs the real zog schema for a node through the public builder API.
@@ -492,13 +594,13 @@ func build1(n *Node, rec *Recorder) z.ZogSchema {
 		case "int":
 			return buildNum(z.Int(schemaOpts(n)...), n, rec)
 		case "i32":
-			return buildNum(z.Int32(), n, rec)
+			return buildNum(z.Int32(schemaOpts(n)...), n, rec)
 		case "i64":
-			return buildNum(z.Int64(), n, rec)
+			return buildNum(z.Int64(schemaOpts(n)...), n, rec)
 		case "f64":
 			return buildNum(floatCtor(n), n, rec)
 		case "f32":
-			return buildNum(z.Float32(), n, rec)
+			return buildNum(z.Float32(schemaOpts(n)...), n, rec)
 		case "bool":
 			s := z.Bool(schemaOpts(n)...)
 			if n.Req != nil {
@@ -540,9 +642,9 @@ func build1(n *Node, rec *Recorder) z.ZogSchema {
 		case "time":
 			var s *z.TimeSchema
 			if n.Layout != "" {
-				s = z.Time(z.Time.Format(n.Layout))
+				s = z.Time(append(schemaOpts(n), z.Time.Format(n.Layout))...)
 			} else {
-				s = z.Time()
+				s = z.Time(schemaOpts(n)...)
 			}
 			if n.Req != nil {
 				s.Required(reqOpts(n)...)
@@ -677,12 +779,14 @@ func build1(n *Node, rec *Recorder) z.ZogSchema {
 		t := n.CTest
 		if n.CK == "int" {
 			return z.CustomFunc(func(ptr *int, ctx z.Ctx) bool {
+				rec.notePtr("custom", t.ID, ctx, ptr)
 				d := argD(n, ptr)
 				rec.addEvent(Event{"custom", t.ID, ctxPath(ctx), d})
 				return d.K != "nilarg" && emod(d.Measure(), t.N) == t.R
 			}, t.Opts.zopts()...)
 		}
 		return z.CustomFunc(func(ptr *string, ctx z.Ctx) bool {
+			rec.notePtr("custom", t.ID, ctx, ptr)
 			d := argD(n, ptr)
 			rec.addEvent(Event{"custom", t.ID, ctxPath(ctx), d})
 			return d.K != "nilarg" && emod(d.Measure(), t.N) == t.R
